@@ -1,7 +1,292 @@
 package main
 
-import "verif/mc/explore"
+// PIT side of C08: Interest / Data / time histories on ONE real forwarding thread (harness/fwsim);
+// after every transition the counters must equal the true number of entries and no entry may
+// outlive its records; every reached state is then closed under quiescence: the clock is advanced
+// beyond every lifetime involved with the periodic reaper running, after which the PIT, its token
+// map and expiry queue and the dead nonce list must be empty and the name tree must hold only
+// paths to live cache entries.
 
-// PIT side: filled in on top of harness/fwsim (see pit_fwsim.go when present).
-func buildPit(cfg string) explore.System  { return nil }
-func pitConfigs(th bool) []explore.Config { return nil }
+import (
+	"fmt"
+	"sort"
+	"strings"
+	"time"
+
+	"verif/harness/fwsim"
+	"verif/mc/explore"
+	"verif/mc/report"
+)
+
+type pitInst struct {
+	sim *fwsim.Sim
+	// tokens this forwarder attached to Interests it sent upstream, in order
+	tokens [][]byte
+	// entries seen without any record (satisfied or answered from cache): key -> first seen
+	bare map[string]time.Time
+	// latest deadline (arrival + lifetime) among the Interests recorded in a PIT entry since it
+	// was created: key -> deadline
+	deadline map[string]time.Time
+}
+
+type pitSys struct {
+	cfg fwsim.Config
+	ops []explore.Op
+	do  map[string]func(in *pitInst)
+}
+
+const tick = 100 * time.Millisecond
+
+func newPitSys(strategy string, cs bool, fib string) *pitSys {
+	s := &pitSys{do: map[string]func(in *pitInst){}}
+	s.cfg = fwsim.Config{
+		FibAlgo: fib, HashtableM: 2, CsCapacity: 2, CsAdmit: cs, CsServe: cs, DnlLifetime: 2 * time.Second,
+		Routes:     []fwsim.Route{{Prefix: "/a", Face: fwsim.N2, Cost: 1}, {Prefix: "/", Face: fwsim.N3, Cost: 2}},
+		Strategies: []fwsim.StrategyChoice{{Prefix: "/", Strategy: strategy}},
+	}
+	add := func(n string, f func(in *pitInst)) { s.ops = append(s.ops, explore.Op{Name: n}); s.do[n] = f }
+	for _, face := range []uint64{fwsim.L1, fwsim.N4} {
+		for _, name := range []string{"/a", "/a/b"} {
+			for _, cbp := range []bool{false, true} {
+				for _, nonce := range []uint32{1, 2} {
+					for _, life := range []time.Duration{200 * time.Millisecond, time.Second} {
+						face, name, cbp, nonce, life := face, name, cbp, nonce, life
+						if cbp && name == "/a/b" {
+							continue
+						}
+						if nonce == 2 && life == time.Second {
+							continue
+						}
+						add(fmt.Sprintf("I(f%d,%s,cbp=%v,n%d,%v)", face, name, cbp, nonce, life), func(in *pitInst) {
+							sent := in.sim.Interest(face, fwsim.InterestSpec{Name: name, CanBePrefix: cbp, Nonce: fwsim.U32(nonce), Lifetime: fwsim.Dur(life)}, fwsim.LP{})
+							k := entryKey(name, cbp, false, "")
+							for _, e := range in.sim.Dump().Pit {
+								if entryKey(e.Name, e.CanBePrefix, e.MustBeFresh, e.Hint) == k {
+									if dl := in.sim.Now().Add(life); dl.After(in.deadline[k]) {
+										in.deadline[k] = dl
+									}
+								}
+							}
+							for _, x := range sent {
+								if x.Kind == fwsim.KInterest && len(x.PitToken) > 0 {
+									in.tokens = append(in.tokens, x.PitToken)
+								}
+							}
+						})
+					}
+				}
+			}
+		}
+	}
+	for _, name := range []string{"/a", "/a/b"} {
+		for _, tok := range []string{"none", "echo"} {
+			name, tok := name, tok
+			add(fmt.Sprintf("D(f2,%s,tok=%s)", name, tok), func(in *pitInst) {
+				lp := fwsim.LP{}
+				if tok == "echo" && len(in.tokens) > 0 {
+					lp.PitToken = in.tokens[len(in.tokens)-1]
+				}
+				in.sim.Data(fwsim.N2, fwsim.DataSpec{Name: name, Freshness: fwsim.Dur(time.Second), Content: "x"}, lp)
+			})
+		}
+	}
+	for _, dt := range []time.Duration{100 * time.Millisecond, 300 * time.Millisecond, 1100 * time.Millisecond} {
+		dt := dt
+		add(fmt.Sprintf("T(%v)", dt), func(in *pitInst) { in.run(dt) })
+	}
+	return s
+}
+
+// run advances the clock in reaper-interval steps, running the periodic arms each step.
+func (in *pitInst) run(d time.Duration) {
+	for d > 0 {
+		step := tick
+		if d < step {
+			step = d
+		}
+		in.sim.Advance(step)
+		in.sim.Tick()
+		d -= step
+	}
+}
+
+func (s *pitSys) New() any {
+	return &pitInst{sim: fwsim.New(s.cfg), bare: map[string]time.Time{}, deadline: map[string]time.Time{}}
+}
+func (s *pitSys) Ops(any) []explore.Op    { return s.ops }
+func (s *pitSys) Do(i any, op explore.Op) { in := i.(*pitInst); s.do[op.Name](in); in.track() }
+
+func entryKey(name string, cbp, mbf bool, hint string) string {
+	return fmt.Sprintf("%s|%v|%v|%s", name, cbp, mbf, hint)
+}
+
+// track maintains first-seen times of record-less entries (for the "promptly once satisfied" clause).
+func (in *pitInst) track() {
+	d := in.sim.Dump()
+	now := in.sim.Now()
+	seen := map[string]bool{}
+	present := map[string]bool{}
+	for _, e := range d.Pit {
+		present[entryKey(e.Name, e.CanBePrefix, e.MustBeFresh, e.Hint)] = true
+	}
+	for k := range in.deadline {
+		if !present[k] {
+			delete(in.deadline, k)
+		}
+	}
+	for _, e := range d.Pit {
+		if len(e.In) == 0 && len(e.Out) == 0 {
+			k := entryKey(e.Name, e.CanBePrefix, e.MustBeFresh, e.Hint)
+			seen[k] = true
+			if _, ok := in.bare[k]; !ok {
+				in.bare[k] = now
+			}
+		}
+	}
+	for k := range in.bare {
+		if !seen[k] {
+			delete(in.bare, k)
+		}
+	}
+}
+
+func (s *pitSys) Apply(i any, op explore.Op) (v []report.Violation) {
+	in := i.(*pitInst)
+	s.do[op.Name](in)
+	in.track()
+	last := opKind(op.Name)
+	d := in.sim.Dump()
+	pc := in.sim.Thread.VerifPitCs()
+	if pc.PitSize() != len(d.Pit) || in.sim.Thread.GetNumPitEntries() != len(d.Pit) {
+		v = append(v, report.Violation{Clause: "C08.count", Key: "PitSize differs from stored entries after " + last, Detail: fmt.Sprintf("PitSize()=%d, %d entries in the tree", pc.PitSize(), len(d.Pit))})
+	}
+	if pc.CsSize() != len(d.Cs) {
+		v = append(v, report.Violation{Clause: "C08.count", Key: "CsSize differs from stored entries after " + last, Detail: fmt.Sprintf("CsSize()=%d, %d entries in the tree", pc.CsSize(), len(d.Cs))})
+	}
+	if d.TokenMapSize != len(d.Pit) {
+		v = append(v, report.Violation{Clause: "C08.pit", Key: "token map size differs from PIT entries after " + last, Detail: fmt.Sprintf("pitTokenMap has %d entries, PIT has %d", d.TokenMapSize, len(d.Pit))})
+	}
+	// entries must not outlive their records (latest lifetime) by more than two reaper ticks, and
+	// record-less (satisfied / cache-answered) entries must go within two ticks. Only meaningful
+	// right after the reaper ran (T ops).
+	if last == "T" {
+		now := in.sim.Now()
+		for _, e := range d.Pit {
+			if len(e.In)+len(e.Out) > 0 {
+				// "no later than shortly after the latest lifetime among the Interests recorded in it"
+				dl, ok := in.deadline[entryKey(e.Name, e.CanBePrefix, e.MustBeFresh, e.Hint)]
+				if ok && now.Sub(dl) > 2*tick {
+					v = append(v, report.Violation{Clause: "C08.when", Key: "PIT entry outlives the latest lifetime of the Interests recorded in it", Detail: fmt.Sprintf("entry %s cbp=%v still present %v after the latest Interest lifetime elapsed: %+v queue=%+v", e.Name, e.CanBePrefix, now.Sub(dl), e, in.sim.Queue())})
+				}
+			} else if t0, ok := in.bare[entryKey(e.Name, e.CanBePrefix, e.MustBeFresh, e.Hint)]; ok && now.Sub(t0) > 2*tick {
+				kind := "satisfied"
+				if !e.Satisfied {
+					kind = "never forwarded (answered from cache or dropped)"
+				}
+				v = append(v, report.Violation{Clause: "C08.when", Key: "record-less PIT entry not removed promptly: " + kind, Detail: fmt.Sprintf("entry %s cbp=%v has no in/out records for %v and is still in the PIT (queued=%v satisfied=%v)", e.Name, e.CanBePrefix, now.Sub(t0), e.Queued, e.Satisfied)})
+			}
+		}
+	}
+	return v
+}
+
+// CheckState: quiescence closure.
+func (s *pitSys) CheckState(i any) (v []report.Violation) {
+	in := i.(*pitInst)
+	// longest Interest lifetime 1 s, DNL lifetime 2 s; the DNL reaper removes <=100 per tick
+	in.run(1*time.Second + 2*time.Second + 2*time.Second)
+	d := in.sim.Dump()
+	if len(d.Pit) > 0 {
+		kinds := map[string]bool{}
+		for _, e := range d.Pit {
+			k := fmt.Sprintf("records=%v satisfied=%v queued=%v", len(e.In)+len(e.Out) > 0, e.Satisfied, e.Queued)
+			kinds[k] = true
+		}
+		var ks []string
+		for k := range kinds {
+			ks = append(ks, k)
+		}
+		sort.Strings(ks)
+		v = append(v, report.Violation{Clause: "C08.pit", Key: "PIT not empty at quiescence: " + strings.Join(ks, " / "), Detail: fmt.Sprintf("%d PIT entries remain 5 s after the last event (all lifetimes <= 1 s): %+v", len(d.Pit), d.Pit)})
+	}
+	if d.NPit != len(d.Pit) || d.TokenMapSize != len(d.Pit) || d.QueueLen > len(d.Pit) {
+		v = append(v, report.Violation{Clause: "C08.pit", Key: "PIT bookkeeping differs from entries at quiescence", Detail: fmt.Sprintf("counter=%d tokenMap=%d queue=%d entries=%d", d.NPit, d.TokenMapSize, d.QueueLen, len(d.Pit))})
+	}
+	if len(d.Pit) == 0 && len(d.DeadNodes) > 0 {
+		v = append(v, report.Violation{Clause: "C08.tree", Key: "PIT/CS name tree keeps dead branch at quiescence", Detail: fmt.Sprintf("nodes %v lead to no PIT or CS entry", d.DeadNodes)})
+	}
+	if d.NCs != len(d.Cs) {
+		v = append(v, report.Violation{Clause: "C08.count", Key: "CsSize differs from stored entries at quiescence", Detail: fmt.Sprintf("counter=%d entries=%d", d.NCs, len(d.Cs))})
+	}
+	if n, q := in.sim.DnlSize(); n != 0 || q != 0 {
+		v = append(v, report.Violation{Clause: "C08.dnl", Key: "dead nonce list not empty after its lifetime", Detail: fmt.Sprintf("%d nonces / %d queue items remain 5 s after the last event (lifetime 2 s)", n, q)})
+	}
+	return v
+}
+
+func (s *pitSys) Canon(i any) string {
+	in := i.(*pitInst)
+	d := in.sim.Dump()
+	now := in.sim.Now()
+	sat := func(x time.Duration) time.Duration { return fwsim.Saturate(x, -3*tick, 2*time.Second) }
+	var b strings.Builder
+	tokIdx := map[uint32]int{}
+	for k, e := range d.Pit {
+		tokIdx[e.Token] = k
+		fmt.Fprintf(&b, "P[%s %v %v sat=%v q=%v exp=%v in=", e.Name, e.CanBePrefix, e.MustBeFresh, e.Satisfied, e.Queued, sat(e.ExpireIn))
+		for _, r := range e.In {
+			fmt.Fprintf(&b, "(%d,%d,%v)", r.Face, r.Nonce, sat(r.ExpireIn))
+		}
+		b.WriteString(" out=")
+		for _, r := range e.Out {
+			fmt.Fprintf(&b, "(%d,%d,%v,%v)", r.Face, r.Nonce, sat(r.Age), sat(r.ExpireIn))
+		}
+		if t0, ok := in.bare[entryKey(e.Name, e.CanBePrefix, e.MustBeFresh, e.Hint)]; ok {
+			fmt.Fprintf(&b, " bare=%v", sat(now.Sub(t0)))
+		}
+		if dl, ok := in.deadline[entryKey(e.Name, e.CanBePrefix, e.MustBeFresh, e.Hint)]; ok {
+			fmt.Fprintf(&b, " dl=%v", sat(dl.Sub(now)))
+		}
+		b.WriteString("]")
+	}
+	for _, q := range in.sim.Queue() {
+		fmt.Fprintf(&b, "Q[%s %v %v %v]", q.Name, q.CanBePrefix, q.Queued, sat(q.PrioIn))
+	}
+	for _, c := range d.Cs {
+		fmt.Fprintf(&b, "C[%s %v]", c.Name, sat(c.StaleIn))
+	}
+	fmt.Fprintf(&b, "lru=%v dead=%v", d.LruOrder, d.DeadNodes)
+	n, q := in.sim.DnlSize()
+	fmt.Fprintf(&b, " dnl=%d/%d", n, q)
+	// last issued token matters (echo): identify by the entry it maps to
+	if len(in.tokens) > 0 {
+		_, et, _ := fwsim.IssuedToken(in.tokens[len(in.tokens)-1])
+		if k, ok := tokIdx[et]; ok {
+			fmt.Fprintf(&b, " lasttok->%d", k)
+		} else {
+			b.WriteString(" lasttok->gone")
+		}
+	}
+	return b.String()
+}
+
+func buildPit(cfg string) explore.System {
+	f := strings.Fields(cfg) // pit <strategy> <cs> <fib>
+	st := fwsim.BestRoute
+	if f[1] == "mc" {
+		st = fwsim.Multicast
+	}
+	return newPitSys(st, f[2] == "cs", f[3])
+}
+
+func pitConfigs(th bool) []explore.Config {
+	d := 4
+	if th {
+		d = 5
+	}
+	var c []explore.Config
+	for _, name := range []string{"pit br cs nametree", "pit mc cs nametree", "pit br nocs hashtable", "pit mc nocs nametree"} {
+		c = append(c, explore.Config{Name: name, MaxDepth: d, MaxDev: -1})
+	}
+	return c
+}
